@@ -671,8 +671,12 @@ def oracle_picks_c(ctx, rec, picks, built, case, views, groups, permitted, bynam
                 ctx.violation('multi_not_quietest', f"{uid} band {rec['bands'][k][0]}: {name} NF {nf_pick} although a permitted "
                               f"model capable in every band offers NF {best}", case)
     if rec['final_type'] is not None and rec['final_type'] not in permitted:
+        # open finding F-multiband-type: every band's pick is an entry of a permitted model (C10_multi_pick_permitted), but
+        # the bands are chosen independently and find_type_variety names the node after ANY library model listing them
+        names = {n for n, _ in picks}
+        same = names <= perm_members and any(g['name'] == rec['final_type'] and names <= set(g['members']) for g in groups)
         ctx.violation('multi_type_not_permitted', f"{uid}: designed type_variety {rec['final_type']} is not a permitted "
-                      f"multiband model {permitted}", case, leak=bool(permitted) and rec['final_type'] in reach)
+                      f"multiband model {permitted} (picks {sorted(names)})", case, same_entries=bool(same))
 
 
 def judge_c(ctx, rec, line, built, case_json, views, status, last):
@@ -762,13 +766,13 @@ def strip(c):
     return {k: v for k, v in c.items() if not k.startswith('_')}
 
 
-def is_multiband_leak(v):
-    """open finding C10/F-multiband-leak: a multiband model outside the permitted set, reached from a permitted one
-    through a shared member entry (find_type_varieties scans the whole library), supplies the pick / the type"""
-    return v.get('key') in ('multi_pick_not_permitted', 'multi_type_not_permitted') and bool(v.get('leak'))
+def is_multiband_type(v):
+    """open finding C10/F-multiband-type: each band's pick is an entry of a permitted multiband model, but the designed
+    type_variety (find_type_variety over the whole library) is a model that is not permitted"""
+    return v.get('key') == 'multi_type_not_permitted' and bool(v.get('same_entries'))
 
 
-MATCHERS = {'F-multiband-leak': is_multiband_leak}
+MATCHERS = {'F-multiband-type': is_multiband_type}
 
 
 def run(ctx):
